@@ -16,7 +16,9 @@ import (
 )
 
 // A composed-system walk (one line):
-//   sw <resend> <timeout> <seed> <nOut> <nIn> <loss%> <dup%> <maxDelay ms> [c2g=<fates>] [g2c=<fates>]
+//
+//	sw <resend> <timeout> <seed> <nOut> <nIn> <loss%> <dup%> <maxDelay ms> [c2g=<fates>] [g2c=<fates>]
+//
 // The real client talks to a rule-following gateway (accept the expected number, re-acknowledge
 // the previous one, ignore others; repeat its own unacknowledged requests) over a network that
 // loses, duplicates, delays and reorders datagrams.  Fates (d deliver, l lose, u duplicate) for the
